@@ -750,6 +750,8 @@ def _kwargs_sources(stmts, scope_fn, pos):
             return True
         raise _err(f"guard {_u(test)} of a keyword argument not understood")
     for st in stmts[:call_i]:
+        if isinstance(st, (ast.FunctionDef, ast.Pass)):
+            continue        # local helpers are inlined where they are called
         if isinstance(st, ast.For) and src_of(st.iter):
             if not (isinstance(st.target, ast.Tuple) and len(st.target.elts) == 2):
                 raise _err("kwargs loop target is not (name, value)")
@@ -906,6 +908,36 @@ def _generator_facts():
 
 
 # ------------------------------------------------------------------------------------------------
+# tree_util.py wrappers
+# ------------------------------------------------------------------------------------------------
+
+def _tree_wrappers():
+    """`name = functools.partial(<optree function>, none_is_leaf=<bool>, namespace="pytask")` ↦ sorted [(name, optree function, none_is_leaf)]"""
+    mod = _host()._parse("tree_util.py")
+    imported = {}
+    for st in mod.body:
+        if isinstance(st, ast.ImportFrom) and st.module == "optree":
+            for a in st.names:
+                imported[a.asname or a.name] = a.name
+    out = []
+    for st in mod.body:
+        if isinstance(st, ast.Assign) and len(st.targets) == 1 and isinstance(st.targets[0], ast.Name) and _callee(st.value) == "partial":
+            c = st.value
+            if len(c.args) != 1:
+                raise _err(f"tree_util.{st.targets[0].id}: partial with positional arguments")
+            f = _u(c.args[0])
+            f = imported.get(f, f.split(".")[-1])
+            kw = {k.arg: k.value for k in c.keywords}
+            if set(kw) != {"none_is_leaf", "namespace"} or _s(kw["namespace"]) != "pytask" or not isinstance(kw["none_is_leaf"], ast.Constant) \
+                    or not isinstance(kw["none_is_leaf"].value, bool):
+                raise _err(f"tree_util.{st.targets[0].id}: keywords {sorted(kw)} not understood")
+            out.append((st.targets[0].id, f, kw["none_is_leaf"].value))
+    if not out:
+        raise _err("tree_util.py: no optree wrappers found")
+    return sorted(out)
+
+
+# ------------------------------------------------------------------------------------------------
 # rendering
 # ------------------------------------------------------------------------------------------------
 
@@ -944,6 +976,7 @@ def argsgen_section() -> list[str]:
     shape_ok, cdep, cprod = _collect_shapes()
     pt = _parse_task_facts()
     x, g = _execute_facts(), _generator_facts()
+    tw = _tree_wrappers()
 
     def lst(xs, f=lambda s: "." + s):
         return "[" + ", ".join(f(s) for s in xs) + "]"
@@ -995,6 +1028,8 @@ def argsgen_section() -> list[str]:
         f"def genDeps : KwSrc := {kws(g['deps'])}",
         f"def genProds : KwSrc := {kws(g['prods'])}",
         f"def genProductsWin : Bool := {b(g['prodsWin'])}",
+        "/-- `tree_util.py`: wrapper ↦ (optree function, `none_is_leaf`), sorted by name. -/",
+        "def treeWrappers : List (String × String × Bool) := [" + ", ".join(f"({h.lean_str(a)}, {h.lean_str(f)}, {b(n)})" for a, f, n in tw) + "]",
         "end Args",
         "",
     ]
